@@ -21,7 +21,12 @@
     ThreadPool::update()           updNoop    m_expiryTimeout < 0: return
                                    updBegin   m_expiryTimeout >= 0
                                    updNotify  m_condition.notify_all()
-                                   updReap    lock(pool) { erase (join + delete) every thread with isFinished() }
+                                   reapYes/reapNo*  lock(pool) { for it in m_pool: if (*it)->isFinished() { join; delete; erase } }
+                                   reapDone   unlock(pool)
+                                     (one step per visited entry: m_isFinished is not protected by m_poolMutex, so a worker may complete
+                                      while the loop runs and the erased set is not a snapshot of the flags at one instant.
+                                      start()'s getActiveThreadCount() loop reads the same flags, but its outcome — all clear or not —
+                                      does have a linearisation point, flags only ever go from clear to set: one step)
     PooledRunnable::run (worker)   workerExit / workerTake / workerExpire / workerPark : lock(queue) { wait predicate; … }
                                      !isRunning -> return; queue non-empty -> take the front task (even if expired);
                                      queue empty and expired (timeout >= 0 && time() - last > timeout) -> return; else block (UNTIMED wait)
@@ -48,7 +53,7 @@ inductive Owner
   | join (rem : List Nat) (todo : List OwnerOp)   -- stop(): joining the pool's threads in order
   | clearQ (todo : List OwnerOp)           -- stop(): pool emptied, clear() pending
   | updNotify (todo : List OwnerOp)        -- update(): timeout >= 0, notify_all pending
-  | updReap (todo : List OwnerOp)          -- update(): pool critical section pending
+  | updReap (rem : List Nat) (todo : List OwnerOp)   -- update(): inside the pool critical section, entries still to visit
 deriving DecidableEq, Repr
 
 inductive Pc
@@ -105,6 +110,9 @@ def isFin (ws : List Wk) (i : Nat) : Bool :=
 
 def notFin (ws : List Wk) (i : Nat) : Bool := !isFin ws i
 
+/-- the pool entries other than `i` (std::list::erase of the entry `i`) -/
+def isNot (i : Nat) (j : Nat) : Bool := j != i
+
 /-- getActiveThreadCount(): pool threads with isRunning() = !m_isFinished -/
 def activeCount (s : State) : Nat := s.pool.countP (notFin s.ws)
 
@@ -151,9 +159,13 @@ inductive Step : State → State → Prop
   | updBegin (s : State) (todo) (T : Nat) (ho : s.owner = .idle (.update :: todo)) (ht : s.timeout = some T) :
       Step s { s with owner := .updNotify todo }
   | updNotify (s : State) (todo) (ho : s.owner = .updNotify todo) :
-      Step s { s with ws := s.ws.map wakeAll, owner := .updReap todo }
-  | updReap (s : State) (todo) (ho : s.owner = .updReap todo) :
-      Step s { s with pool := s.pool.filter (notFin s.ws), owner := .idle todo }
+      Step s { s with ws := s.ws.map wakeAll, owner := .updReap s.pool todo }
+  | reapYes (s : State) (i rem todo) (ho : s.owner = .updReap (i :: rem) todo) (hf : isFin s.ws i = true) :
+      Step s { s with pool := s.pool.filter (isNot i), owner := .updReap rem todo }
+  | reapNo (s : State) (i rem todo) (ho : s.owner = .updReap (i :: rem) todo) (hf : isFin s.ws i = false) :
+      Step s { s with owner := .updReap rem todo }
+  | reapDone (s : State) (todo) (ho : s.owner = .updReap [] todo) :
+      Step s { s with owner := .idle todo }
   | tick (s : State) (d todo) (ho : s.owner = .idle (.tick d :: todo)) :
       Step s { s with now := s.now + d, owner := .idle todo }
   | workerExit (s : State) (w : Nat) (wk : Wk) (hw : s.ws[w]? = some wk) (ha : wk.pc.awake = true) (hr : s.running = false) :
@@ -229,8 +241,11 @@ def ownerStep? (s : State) (woken : Option Nat) : Option State :=
   | .join (w :: rem) todo, none => if isFin s.ws w = true then some { s with owner := .join rem todo } else none
   | .join [] todo, none => some { s with pool := [], owner := .clearQ todo }
   | .clearQ todo, none => some { destroyAll s with owner := .idle todo, stopped := true }
-  | .updNotify todo, none => some { s with ws := s.ws.map wakeAll, owner := .updReap todo }
-  | .updReap todo, none => some { s with pool := s.pool.filter (notFin s.ws), owner := .idle todo }
+  | .updNotify todo, none => some { s with ws := s.ws.map wakeAll, owner := .updReap s.pool todo }
+  | .updReap (i :: rem) todo, none =>
+      if isFin s.ws i = true then some { s with pool := s.pool.filter (isNot i), owner := .updReap rem todo }
+      else some { s with owner := .updReap rem todo }
+  | .updReap [] todo, none => some { s with owner := .idle todo }
   | _, _ => none
 
 /-- the critical section of an awake worker: wait predicate and what follows it -/
